@@ -17,6 +17,11 @@ struct SubResult {
 
 // fn runs in the child with R reset to `plan`; its return value is shipped
 // back as JSON. The child removes its sim root afterwards.
+// CPU-time budget (SIGPROF) plus a generous wall-clock limit (SIGALRM) for the
+// calling process
+void armHangTimers(int cpuSeconds, int wallSeconds);
+// sanitizer reports of this process go to <path>.<pid> (ASan/TSan and UBSan)
+void setSanReportPath(const std::string& path);
 SubResult runInChild(const Json::Value& plan,
                      const std::function<Json::Value()>& fn,
                      int alarmSeconds = 30);
